@@ -29,6 +29,24 @@ for l in open(os.path.join(ROOT, 'properties.jsonl')):
                 anchors[(mm.group(1), mm.group(2))].add(d['id'])
 
 
+# functions the anchored ones call (not named in the properties' anchors): --extra surveys these instead
+EXTRA = {
+    ('mofun/helpers.py', 'atoms_by_type_dict'): {'C01', 'C02'}, ('mofun/helpers.py', 'group_duplicates'): {'C02', 'C03'},
+    ('mofun/helpers.py', 'position_index_farthest_from_axis'): {'C01', 'C02', 'C03'}, ('mofun/helpers.py', 'quaternion_from_two_vectors_around_axis'): {'C01', 'C02'},
+    ('mofun/helpers.py', 'atoms_of_type'): {'C01', 'C02'}, ('mofun/helpers.py', 'guess_elements_from_masses'): {'C14'},
+    ('mofun/atoms.py', 'Atoms.__init__'): {'C09', 'C13', 'C16'}, ('mofun/atoms.py', 'Atoms.__getitem__'): {'C09'}, ('mofun/atoms.py', 'Atoms.elements'): {'C01', 'C09'},
+    ('mofun/atoms.py', 'Atoms.translate'): {'C05', 'C12'}, ('mofun/atoms.py', 'Atoms.label_atoms'): {'C13'}, ('mofun/atoms.py', 'Atoms.num_bond_types'): {'C09', 'C11', 'C13'},
+    ('mofun/atoms.py', 'Atoms.num_angle_types'): {'C09', 'C11', 'C13'}, ('mofun/atoms.py', 'Atoms.num_dihedral_types'): {'C09', 'C11', 'C13'},
+    ('mofun/atoms.py', 'Atoms.num_improper_types'): {'C09', 'C11', 'C13'}, ('mofun/atoms.py', 'Atoms.cell_is_orthorhombic'): {'C02', 'C13'},
+    ('mofun/atoms.py', 'Atoms.save'): {'C13', 'C15'}, ('mofun/atoms.py', 'Atoms.copy'): {'C09'}, ('mofun/atoms.py', 'Atoms.__len__'): {'C09', 'C10'},
+    ('mofun/rough_uff.py', 'guess_bond_order'): {'C18'}, ('mofun/rough_uff.py', 'calc_dihedrals'): {'C19'}, ('mofun/rough_uff.py', 'delete_if_all_in_set'): {'C19'},
+    ('mofun/rough_uff.py', 'assign_angle_types'): {'C19'}, ('mofun/rough_uff.py', 'angle2lammpsdat'): {'C19'}, ('mofun/rough_uff.py', 'dihedral2lammpsdat'): {'C19'},
+    ('mofun/cli/mofun_cli.py', 'assign_pair_params_to_structure'): {'C20'}, ('mofun/uff4mof.py', 'uff_key_starts_with'): {'C20'},
+}
+if '--extra' in args:
+    anchors = collections.defaultdict(set, {k: set(v) for k, v in EXTRA.items()})
+
+
 def functions(tree):
     out = {}
     def walk(node, prefix):
